@@ -802,3 +802,40 @@ Check buffered_order :
         buffered_result res n b = Some r -> (i < n)%nat -> res i = None -> r = None) /\
     ((1 <= maxc)%nat -> b_finished n b = false -> exists s, b_step n maxc b s <> b).
 Print Assumptions buffered_order.
+
+(* the settled states in which the harness cases of the buffered window are evaluated (all that can happen once a set of gates is
+   open has happened) are runs of the step relation: buffered_order holds for them *)
+Theorem buffered_settle_is_schedule :
+  forall (fuel n maxc : nat) (open : nat -> bool) (b : buf),
+    exists sch, b_settle fuel n maxc open b = b_run n maxc b sch.
+Proof. exact b_settle_is_run_proof. Qed.
+Check buffered_settle_is_schedule :
+  forall (fuel n maxc : nat) (open : nat -> bool) (b : buf),
+    exists sch, b_settle fuel n maxc open b = b_run n maxc b sch.
+Print Assumptions buffered_settle_is_schedule.
+
+(* the stages' own process_batch (trait default for MapStage / FilterStage / BatchMapStage without batch function; BatchMapStage
+   with one): one result per input in input order or Err at the first failing item, nothing called after it, no suspension of its
+   own; FilterStage keeps one entry per input (a rejected item is None in its place, nothing shifts) *)
+Theorem stage_process_batch_is_map :
+  forall (T R : Type) (f : T -> option R) (xs : list T),
+    (fst (stage_batch_default f xs) = map_opt f xs /\
+     calls (snd (stage_batch_default f xs)) = upto_fail f xs /\ yields (snd (stage_batch_default f xs)) = 0) /\
+    (forall p : T -> bool,
+       fst (stage_batch_default (filter_process p) xs) = Some (map (fun x => if p x then Some x else None) xs) /\
+       calls (snd (stage_batch_default (filter_process p) xs)) = xs) /\
+    (forall (bf : list T -> option (list R)), (forall c, bf c = map_opt f c) ->
+       fst (stage_batch_func bf xs) = map_opt f xs /\ calls (snd (stage_batch_func bf xs)) = [xs]) /\
+    (forall l, map_opt f xs = Some l -> length l = length xs).
+Proof. exact stage_process_batch_is_map_proof. Qed.
+Check stage_process_batch_is_map :
+  forall (T R : Type) (f : T -> option R) (xs : list T),
+    (fst (stage_batch_default f xs) = map_opt f xs /\
+     calls (snd (stage_batch_default f xs)) = upto_fail f xs /\ yields (snd (stage_batch_default f xs)) = 0) /\
+    (forall p : T -> bool,
+       fst (stage_batch_default (filter_process p) xs) = Some (map (fun x => if p x then Some x else None) xs) /\
+       calls (snd (stage_batch_default (filter_process p) xs)) = xs) /\
+    (forall (bf : list T -> option (list R)), (forall c, bf c = map_opt f c) ->
+       fst (stage_batch_func bf xs) = map_opt f xs /\ calls (snd (stage_batch_func bf xs)) = [xs]) /\
+    (forall l, map_opt f xs = Some l -> length l = length xs).
+Print Assumptions stage_process_batch_is_map.
